@@ -152,7 +152,15 @@ class _Loader(importlib.machinery.SourceFileLoader):
 
     def exec_module(self, module):
         module.__dict__.update(_sym_in=_sym_in, _sym_getitem=_sym_getitem, _sym_fmt=_sym_fmt, _sym_join=_sym_join, _cov=_cov, _loop_tick=_loop_tick)
-        super().exec_module(module)
+        # module-level code must see the datetime model too (e.g. a module constant computed with fromtimestamp())
+        from . import symdt
+
+        real_dt = sys.modules.get("datetime")
+        sys.modules["datetime"] = symdt.SHIM_MODULE
+        try:
+            super().exec_module(module)
+        finally:
+            sys.modules["datetime"] = real_dt
         # shims go in AFTER exec: they replace the names the module imported (math, datetime, ...)
         from . import models
 
